@@ -1,1 +1,22 @@
-fn main() {}
+use actix_server::verif::{Act, LKind, Sim, SimCfg};
+
+fn main() {
+    let dir = std::env::temp_dir().join(format!("vsrv-{}", std::process::id()));
+    std::fs::create_dir_all(&dir).unwrap();
+    let mut sim = Sim::new(SimCfg { workers: 1, limit: 1, listeners: vec![LKind::Tcp, LKind::Uds], shutdown_timeout_ms: 2000, dir: dir.display().to_string() }).unwrap();
+    sim.apply(&Act::Connect(0));
+    sim.apply(&Act::Connect(1));
+    println!("{:?}", sim.snapshot());
+    sim.iterate(vec![]);
+    println!("{:?}", sim.snapshot());
+    sim.apply(&Act::WorkerPoll(0));
+    println!("{:?}", sim.snapshot());
+    sim.apply(&Act::Finish(0));
+    println!("{:?}", sim.snapshot());
+    sim.iterate(vec![]);
+    sim.apply(&Act::WorkerPoll(0));
+    sim.iterate(vec![]);
+    println!("{:?}", sim.snapshot());
+    drop(sim);
+    let _ = std::fs::remove_dir_all(&dir);
+}
